@@ -312,6 +312,21 @@ class Adapter:
         self.stack = contextlib.ExitStack()
         self.ex = None
 
+    def cloud_point(self, label):
+        """A (fake) CLI / cloud API call made by a monitor thread while it collects statuses.  In "park" mode
+        it is a scheduling point: the monitor is parked mid-walk while other threads run."""
+        if self.info.get("park"):
+            cur = self.det.current()
+            if cur is not None and cur.name[0] == "M":
+                self.det.pause(("cloud", label))
+
+    def lazily(self, ids, label):
+        """Iterate the collection the executor handed to the status call the way the real call does:
+        item by item, around a slow remote call (a live dict passed here fails like it would for real)."""
+        for i in ids:
+            self.cloud_point(label)
+            yield i
+
     def fin(self, cloud_id):
         """Has the run with this cloud-side id finished?"""
         if self.finished is None:
@@ -397,11 +412,42 @@ class DockerAd(Adapter):
         m = self.mod
         self.patch(m, "submit_task", lambda image, prefix, job, task, **k: {"jobId": f"c{job.n}"})
 
-        def iter_job_status(prefix, id2job):
-            for jid in id2job:
-                if self.fin(jid):      # a container that is still running is not listed as done
-                    yield {"jobId": jid, "status": m.SUCCEEDED, "logs": ""}
-        self.patch(m, "iter_job_status", iter_job_status)
+        # the real iter_job_status runs; the docker CLI (subprocess) and the status files are the fake
+        ad = self
+        ad.removed = set()
+        ad.containers = {}      # container id -> job
+
+        class FakeSubprocess:
+            CalledProcessError = __import__("subprocess").CalledProcessError
+
+            @staticmethod
+            def check_output(cmd, *a, **k):
+                if cmd[:2] == ["docker", "ps"]:
+                    ad.cloud_point("docker ps")
+                    return "\n".join(c for c in ad.containers if c not in ad.removed and not ad.fin(c)).encode()
+                if cmd[:2] in (["docker", "logs"], ["docker", "rm"]):
+                    ad.cloud_point(" ".join(cmd[:2]))
+                    if cmd[2] in ad.removed or cmd[2] not in ad.containers:
+                        raise FakeSubprocess.CalledProcessError(1, cmd, b"No such container")
+                    if cmd[1] == "rm":
+                        ad.removed.add(cmd[2])
+                    return b""
+                raise AssertionError(f"unexpected command {cmd}")
+
+            def __getattr__(self, name):
+                return getattr(__import__("subprocess"), name)
+        self.patch(m, "subprocess", FakeSubprocess())
+
+        def submit_task(image, prefix, job, task, **k):
+            cid = f"c{job.n}"
+            ad.containers[cid] = job
+            path = m.get_job_scratch_file(prefix, job, m.SCRATCH_STATUS)
+            import os
+            os.makedirs(os.path.dirname(path), exist_ok=True)
+            with open(path, "w") as f:
+                f.write("ok")
+            return {"jobId": cid}
+        self.patch(m, "submit_task", submit_task)
         self.ex = m.DockerExecutor("d", scheduler=self.sched, config=section(
             {"image": "img", "scratch": self.tmp, "job_monitor_interval": 0, "code_package": False}))
 
@@ -415,7 +461,7 @@ class BatchAd(Adapter):
         self.patch(m, "submit_task", lambda image, queue, prefix, job, task, **k: {"jobId": f"b{job.n}", "jobName": "n"})
 
         def iter_batch_job_status(job_ids, pending_truncate=10, aws_region=None):
-            for jid in job_ids:
+            for jid in self.lazily(job_ids, "describe_jobs"):
                 yield {"jobId": jid, "status": m.SUCCEEDED if self.fin(jid) else "RUNNING"}
         self.patch(m, "iter_batch_job_status", iter_batch_job_status)
         self.patch(m, "get_job_log_stream", lambda job, aws_region=None: None)
@@ -450,7 +496,7 @@ class K8sAd(Adapter):
         self.patch(m.k8s_utils, "create_namespace", lambda *a, **k: None)
         self.patch(m.k8s_utils, "delete_job", lambda *a, **k: None)
         self.patch(m, "submit_task", lambda client, image, ns, prefix, job, task, **k: FakeK8sJob(f"k{job.n}"))
-        self.patch(m, "k8s_describe_jobs", lambda client, names, namespace=None: [FakeK8sJob(n, self.fin(n)) for n in names])
+        self.patch(m, "k8s_describe_jobs", lambda client, names, namespace=None: [FakeK8sJob(n, self.fin(n)) for n in self.lazily(names, "read_job")])
         self.patch(m, "get_k8s_job_pods", lambda core, name: [])
         self.patch(m, "get_task_command", lambda task, args, kwargs: "cmd")
         self.patch(m, "submit_command", lambda client, image, ns, prefix, job, command, **k: FakeK8sJob(f"k{job.n}"))
@@ -477,7 +523,7 @@ class GcpAd(Adapter):
         self.patch(m.gcp_utils, "batch_submit", batch_submit)
         State = m.TaskStatus.State
         self.patch(m.gcp_utils, "get_task",
-                   lambda client=None, task_name=None: SimpleNamespace(
+                   lambda client=None, task_name=None: self.cloud_point("get_task") or SimpleNamespace(
                        name=task_name, status=SimpleNamespace(state=State.SUCCEEDED if self.fin(task_name) else State.RUNNING)))
         self.ex = m.GCPBatchExecutor("g", scheduler=self.sched, config=section(
             {"image": "img", "project": "p", "region": "r", "gcs_scratch": self.tmp + "/gcs",
@@ -492,7 +538,7 @@ class GlueAd(Adapter):
         m = self.mod
 
         def glue_describe_jobs(ids, glue_job_name=None, aws_region=None):
-            for i in ids:
+            for i in self.lazily(ids, "get_job_run"):
                 yield {"Id": i, "JobRunState": "SUCCEEDED" if self.fin(i) else "RUNNING"}
         self.patch(m, "glue_describe_jobs", glue_describe_jobs)
         self.ex = m.AWSGlueExecutor("gl", scheduler=self.sched, config=section(
